@@ -7,13 +7,18 @@ package main
 // behind (len < cap after a shorter or failed read), which a single decode into a fresh value can
 // never show. For every destination below and every ordered pair (first, second) of inputs from its
 // menu a fresh destination decodes first and then second; thorough also runs every triple over a
-// reduced menu. Obligation: no panic and no non-termination in any step (errors are fine).
+// reduced menu. Obligations: no panic and no non-termination in any step (errors are fine), and an input that
+// a FRESH destination of the same kind rejects (a length prefix inconsistent with the rest, a truncated body)
+// is rejected by the used destination too: whether bytes from the peer are malformed does not depend on what
+// was decoded before. (The converse - a used destination rejecting what a fresh one accepts - is only counted.)
 
 import (
 	"bytes"
 	"encoding/hex"
 	"fmt"
 	"io"
+	"strings"
+	"sync"
 	"sync/atomic"
 
 	"github.com/Tnze/go-mc/level"
@@ -28,6 +33,26 @@ type reusable struct {
 	Menu   [][]byte // quick and thorough
 	MenuT  [][]byte // added in thorough
 	Triple [][]byte // thorough: all ordered triples over this reduced menu
+
+	fresh sync.Map // input -> error text of decoding it into a fresh destination ("" if accepted, "panic" if it panicked)
+}
+
+// freshVerdict decodes in into a fresh destination of u (memoised per input).
+func (u *reusable) freshVerdict(in []byte) string {
+	if v, ok := u.fresh.Load(string(in)); ok {
+		return v.(string)
+	}
+	verdict := ""
+	dec := u.New()
+	if _, _, panicked := engine.Guard(func() {
+		if err := dec(bytes.NewReader(in)); err != nil {
+			verdict = "error: " + err.Error()
+		}
+	}); panicked {
+		verdict = "panic"
+	}
+	u.fresh.Store(string(in), verdict)
+	return verdict
 }
 
 var reusables []*reusable
@@ -178,7 +203,7 @@ func buildReusables() {
 	}, Menu: decoderMenu("Chunk/secs=1", false, 1<<20)})
 }
 
-var reuseHistories, reuseSteps int64
+var reuseHistories, reuseSteps, reuseStricter int64
 
 // runHistory decodes the inputs one after another into one fresh destination.
 func runHistory(slot int, u *reusable, hist [][]byte) {
@@ -193,8 +218,20 @@ func runHistory(slot int, u *reusable, hist [][]byte) {
 	for i, in := range hist {
 		i := i
 		wd.Begin(slot, func() string { return caseJSON(mk(i)) })
-		kind, frame, panicked := engine.Guard(func() { _ = dec(bytes.NewReader(in)) })
+		var derr error
+		kind, frame, panicked := engine.Guard(func() { derr = dec(bytes.NewReader(in)) })
 		wd.End(slot)
+		if !panicked && i > 0 {
+			fv := u.freshVerdict(in)
+			switch {
+			case derr == nil && strings.HasPrefix(fv, "error"):
+				rep.FailLazy(u.Name+"/reused-destination/accepts-what-a-fresh-destination-rejects", len(hist)*1000+len(in), func() engine.Failure {
+					return engine.Failure{Detail: fmt.Sprintf("%s decodes input %d of the history %s into the destination the earlier inputs were decoded into and returns nil; a fresh destination rejects the same bytes (%s)", u.Name, i+1, clipHist(hist), fv), Case: mk(i)}
+				})
+			case derr != nil && fv == "":
+				atomic.AddInt64(&reuseStricter, 1)
+			}
+		}
 		if panicked {
 			prev := "fresh"
 			if i > 0 {
